@@ -129,6 +129,12 @@ def extract():
                          "exportStaticFallback: pattern not found: %r" % e))
         t.update({"exportStaticFallbackFor": [], "exportStaticFallbackUnless": []})
     try:
+        t.update(_export_cache_methods())
+    except Exception as e:
+        problems.append((["exportCacheNoParam", "exportCacheParam"],
+                         "exportCacheMethods: pattern not found: %r" % e))
+        t.update({"exportCacheNoParam": [], "exportCacheParam": []})
+    try:
         t.update(_export_ref_value())
     except Exception as e:
         problems.append((["exportRefValueOrder", "exportLiteralTypes", "exportLiteralTest"],
@@ -188,6 +194,94 @@ def _export_call_loop():
         else:
             raise ValueError("unknown statement in __call__ loop: " + src[:60])
     return tags
+
+
+def cache_method_tokens(fn, name="x", key=None):
+    """a generated cache method (ast.FunctionDef) as a program over the cache of ONE element:
+         ["ifhas" | "ifnothas", op .., "else", op .., "end", op ..]
+    (`has`: `self._has_<name>` for a cells without parameters; `<key> in self._v_<name>` for one with), ops:
+         evalTmp    <local> = self._f_<name>(..)                 evalSlot   self._v_<name> = self._f_<name>()
+         evalBoth   <local> = self._v_<name> = self._f_<name>()  evalItem   self._v_<name>[key] = self._f_<name>(..)
+         setHas / clearHas   self._has_<name> = True / False
+         storeTmp   self._v_<name> = <local>                     putTmp     self._v_<name>[key] = <local>
+         retSlot    return self._v_<name>     retItem  return self._v_<name>[key]     retTmp   return <local>
+    Anything else raises ValueError (the pattern no longer matches)."""
+    has, slot, f = "self._has_" + name, "self._v_" + name, "self._f_" + name
+    norm = lambda text: _src_of(ast.parse(text, mode="eval").body)       # noqa: E731
+    item = None if key is None else norm("%s[%s]" % (slot, key))
+    body = list(fn.body)
+    if not body or not isinstance(body[0], ast.If):
+        raise ValueError("cache method does not start with an if: " + _src_of(fn)[:80])
+    test = _src_of(body[0].test)
+    tests = {has: "ifhas", "not " + has: "ifnothas"} if key is None else \
+        {norm("%s in %s" % (key, slot)): "ifhas", norm("%s not in %s" % (key, slot)): "ifnothas"}
+    if test not in tests:
+        raise ValueError("unknown test in cache method: " + test)
+    local = None
+
+    def is_call(node):
+        return isinstance(node, ast.Call) and _src_of(node.func) == f
+
+    def op(st):
+        nonlocal local
+        src = _src_of(st)
+        if isinstance(st, ast.Return) and st.value is not None:
+            v = _src_of(st.value)
+            if v == slot and key is None:
+                return "retSlot"
+            if item is not None and v == item:
+                return "retItem"
+            if local is not None and v == local:
+                return "retTmp"
+        if isinstance(st, ast.Assign):
+            tg = [_src_of(x) for x in st.targets]
+            if is_call(st.value):
+                if len(tg) == 1 and isinstance(st.targets[0], ast.Name):
+                    local = tg[0]
+                    return "evalTmp"
+                if tg == [slot] and key is None:
+                    return "evalSlot"
+                if item is not None and tg == [item]:
+                    return "evalItem"
+                if len(tg) == 2 and isinstance(st.targets[0], ast.Name) and tg[1] == slot and key is None:
+                    local = tg[0]
+                    return "evalBoth"
+            elif len(tg) == 1:
+                v = _src_of(st.value)
+                if tg[0] == has and v in ("True", "False") and key is None:
+                    return "setHas" if v == "True" else "clearHas"
+                if local is not None and v == local:
+                    if tg[0] == slot and key is None:
+                        return "storeTmp"
+                    if item is not None and tg[0] == item:
+                        return "putTmp"
+        raise ValueError("unknown statement in cache method: " + src[:80])
+    toks = [tests[test]] + [op(st) for st in body[0].body] + ["else"] + [op(st) for st in body[0].orelse]
+    return toks + ["end"] + [op(st) for st in body[1:]]
+
+
+def _export_cache_methods():
+    """SpaceTranslator.cache_method_noparam / cache_method (exporter.py): the methods through which an exported
+    package reads a cached cells.  -> exportCacheNoParam, exportCacheParam (see cache_method_tokens)"""
+    import textwrap
+    cls = _class(_parse("modelx/export/exporter.py"), "SpaceTranslator")
+    tmpl = {}
+    for node in cls.body:
+        if isinstance(node, ast.Assign) and isinstance(node.targets[0], ast.Name) and \
+                node.targets[0].id in ("cache_method_noparam", "cache_method"):
+            for sub in ast.walk(node.value):
+                if isinstance(sub, ast.Constant) and isinstance(sub.value, str):
+                    tmpl[node.targets[0].id] = sub.value
+    res = {}
+    for attr, tname, kw, key in (("cache_method_noparam", "exportCacheNoParam", {}, None),
+                                 ("cache_method", "exportCacheParam",
+                                  {"params": "a, b", "args": "a, b", "idx_args": "(a, b)"}, "(a, b)")):
+        code = textwrap.dedent(tmpl[attr]).format(name="x", **kw)
+        fns = [n for n in ast.parse(code).body if isinstance(n, ast.FunctionDef)]
+        if len(fns) != 1 or fns[0].name != "x":
+            raise ValueError(attr + ": not one method")
+        res[tname] = cache_method_tokens(fns[0], "x", key)
+    return res
 
 
 def _export_replace_order():
@@ -833,6 +927,9 @@ def render(t):
             '("%s", "%s")' % (a, b) for a, b in t["exportRefCopyRule"]) + "]",
         "def exportStaticFallbackFor : List String := " + _lean_str_list(t["exportStaticFallbackFor"]),
         "def exportStaticFallbackUnless : List String := " + _lean_str_list(t["exportStaticFallbackUnless"]),
+        "/-- exporter.py SpaceTranslator.cache_method_noparam / cache_method as programs (tables.cache_method_tokens) -/",
+        "def exportCacheNoParam : List String := " + _lean_str_list(t["exportCacheNoParam"]),
+        "def exportCacheParam : List String := " + _lean_str_list(t["exportCacheParam"]),
         "def mxNamespaceOrder : List String := " + _lean_str_list(t["mxNamespaceOrder"]),
         "def mxDynRefsOrder : List String := " + _lean_str_list(t["mxDynRefsOrder"]),
         "def mxAllargsOrder : List String := " + _lean_str_list(t["mxAllargsOrder"]),
